@@ -4,7 +4,7 @@ set -e
 cd "$(dirname "$(readlink -f "$0")")/../.."
 export GOFLAGS=-mod=mod GOPROXY=off GOTOOLCHAIN=local
 mkdir -p .build/bin
-go1.26 build -o .build/bin/instr ./engine/instr
-VERIF_ROOT="$PWD" .build/bin/instr -id C12 -out "$PWD/.build/instr-C12" \
+go1.26 build -o .build/bin/instr-C12 ./engine/instr
+VERIF_ROOT="$PWD" .build/bin/instr-C12 -id C12 -out "$PWD/.build/instr-C12" \
   -chan parallelisation/parallelisation.go \
   -swapsync parallelisation/cancel_functions.go
